@@ -38,7 +38,7 @@ FLOORS = {"quick": {"scripts": 5000, "final_checks_watcher": 4000, "final_checks
                     "datagrams_exchanged": 150000, "crashes": 2500, "restarts": 2000, "graceful_stops": 2000, "net_fault_windows": 1200,
                     "single_disturbance_enumerated": 1500, "placements_same_instant": 1500, "infinite_ttl_scripts": 300,
                     "converged_offered_and_subscribed": 2000, "converged_withdrawn": 800,
-                    "mesh_scenarios": 100, "mesh_final_checks_watcher": 150, "mesh_final_checks_offerer": 150, "mesh_alternation_events": 1000}}
+                    "mesh_scenarios": 100, "mesh_final_checks_watcher": 90, "mesh_final_checks_offerer": 90, "mesh_alternation_events": 600}}
 # system-level shards: the mesh workload of pv/mesh.py under this property's boundary monitors (reports of other monitors are dropped)
 MESH = {"want": ("converge",), "claim": ("mesh:watcher-does-not-converge", "mesh:offerer-does-not-converge", "mesh:discovery-listener-history", "mesh:subscription-listener-history"),
         "quick": (2, 60), "thorough": (16, 1500)}
